@@ -1372,3 +1372,5 @@ if __name__ == "__main__":
     src2v3_reader.main()
     main3()
     main3r()
+    import src2v3_comp  # work package compT: coq/gen/Src3c.v (compress.rs, fails closed per item)
+    src2v3_comp.main()
